@@ -130,13 +130,22 @@ def gen(rng, tier):
         for a in range(NAT):
             L.append("m.mass %d %s" % (a, fbits(rng.choice([1.0, 12.0, 16.0]))))
         L.append(cfg(text)); cl = len(L)
-        L.append(cfg("harmonic {\n name b\n colvars q\n centers %s\n forceConstant %s\n}\n" % (num(rng.uniform(-2, 2)), num(rng.uniform(0.5, 2.0)))))
+        # the applied force comes from a harmonic restraint, from walls (whose force reaches the variable through the
+        # "actual value" path, bypassing any extended Lagrangian), from a linear restraint, or from several of them
+        bk = ["harmonic", "walls", "harmonic+walls", "linear+walls"][len(cases) % 4]
+        if "harmonic" in bk:
+            L.append(cfg("harmonic {\n name b\n colvars q\n centers %s\n forceConstant %s\n}\n" % (num(rng.uniform(-2, 2)), num(rng.uniform(0.5, 2.0)))))
+        if "linear" in bk:
+            L.append(cfg("linear {\n name bl\n colvars q\n centers 0.0\n forceConstant %s\n}\n" % num(rng.uniform(0.5, 2.0))))
+        if "walls" in bk:
+            lw = rng.uniform(-2, 2)
+            L.append(cfg("harmonicWalls {\n name bw\n colvars q\n lowerWalls %s\n upperWalls %s\n forceConstant %s\n}\n" % (num(lw), num(lw + 0.001), num(rng.uniform(0.5, 2.0)))))
         for a in range(NAT):
             L.append(pos(a, *P[a])); L.append(tf(a, 0.0, 0.0, 0.0))
         lines = []
         for s in range(4):
             L.append("m.step"); L.append("m.cv q ft fa"); lines.append(len(L))
-        cases.append({"lines": L, "meta": {"kind": "loop", "comps": info, "subtract": sub, "cfg": cl, "steps": lines}, "nontrivial": True})
+        cases.append({"lines": L, "meta": {"kind": "loop", "comps": info, "subtract": sub, "bias": bk, "cfg": cl, "steps": lines}, "nontrivial": True})
     # (d) late convention at finite temperature with moving atoms: the Jacobian term belongs to the step the forces refer to
     for k in range(6 if tier == "quick" else 60):
         P = [[rng.uniform(-3, 3) for _ in range(3)] for _ in range(NAT)]
@@ -244,6 +253,6 @@ def oracle(case, out):
     for s in range(2, 4):
         exp = 0.0 if m["subtract"] else fas[s - 1]
         if not close(fts[s], exp, abs(fas[s - 1])):
-            return ["%s, late forces returned by the engine%s: total force at step %d is %r, the force applied at step %d was %r"
-                    % (what, ", subtractAppliedForce" if m["subtract"] else "", s, fts[s], s - 1, fas[s - 1])]
+            return ["%s under %s, late forces returned by the engine%s: total force at step %d is %r, the force applied at step %d was %r"
+                    % (what, m.get("bias", "harmonic"), ", subtractAppliedForce" if m["subtract"] else "", s, fts[s], s - 1, fas[s - 1])]
     return []
